@@ -1,1 +1,40 @@
 // Kani contract harnesses for /repo/arrow-array/src/array/dictionary_array.rs (child module: sees private items via super::)
+use super::*;
+#[path = "/verif/kani/support/spec.rs"]
+mod spec;
+use spec::*;
+use crate::types::{Int32Type, Int8Type};
+use arrow_buffer::{BooleanBuffer, Buffer, NullBuffer, ScalarBuffer};
+
+// Contract (C09, single attempt): DictionaryArray::<Int8Type>::try_new(keys, values) with 2 symbolic keys
+// (validity symbolic) and a 2-entry Int32 dictionary: Ok <=> every valid key k satisfies 0 <= k < 2
+// (values under null keys are ignored). The values argument is an ArrayRef (Arc<dyn Array>): values.len()
+// and values.data_type() are dyn calls.
+// @unit name=dict_i8_try_new_iff props=C09 kind=bounded bound=keys=2_dictionary=2_entries fns=DictionaryArray::try_new tier=thorough timeout=900 mem=10 note=not_confirmed_at_checkpoint
+#[kani::proof]
+#[kani::unwind(8)]
+#[kani::stub(alloc::fmt::format, stub_format)]
+fn dict_i8_try_new_iff() {
+    let keys: [i8; 2] = kani::any();
+    let bm: [u8; 1] = kani::any();
+    let dict = [7i32, 9];
+    let k = unsafe {
+        PrimitiveArray::<Int8Type>::new_unchecked(
+            ScalarBuffer::new(Buffer::from_slice_ref(&keys), 0, 2),
+            Some(NullBuffer::new(BooleanBuffer::new(Buffer::from_slice_ref(&bm), 0, 2))),
+        )
+    };
+    let v = unsafe { PrimitiveArray::<Int32Type>::new_unchecked(ScalarBuffer::new(Buffer::from_slice_ref(&dict), 0, 2), None) };
+    let values: ArrayRef = Arc::new(v);
+    let r = DictionaryArray::<Int8Type>::try_new(k, values);
+    let mut ok = true;
+    let mut i = 0;
+    while i < 2 {
+        if bit(&bm, i) && (keys[i] < 0 || keys[i] >= 2) { ok = false; }
+        i += 1;
+    }
+    assert!(r.is_ok() == ok);
+    kani::cover!(r.is_ok() && keys[0] == 5);     // garbage under a null key accepted
+    kani::cover!(r.is_err());
+    std::mem::forget(r);
+}
